@@ -1,3 +1,10 @@
-/* extension commands; filled in by later models */
+/* extension commands: message builders, VSS codec */
+#include <stdlib.h>
 #include "hx.h"
-int hx_ext(int argc, char** argv) { (void)argc; (void)argv; return 0; }
+int hx_can(int argc, char** argv, unsigned offset);
+int hx_canbrief(int argc, char** argv, unsigned offset);
+int hx_ext(int argc, char** argv) {
+    const char* off = getenv("HX_OFFSET");
+    unsigned o = off ? (unsigned)atoi(off) : 0;
+    return hx_can(argc, argv, o) || hx_canbrief(argc, argv, o);
+}
